@@ -141,6 +141,7 @@ def run(run: common.Run):
         run.extra['traces_validated_against_impl'] = len(lines)
     cli_faults(run, tmp, pair, bsig, model, kernel, mbm, njobs)
     compare_stats_faults(run, tmp, pair, mbm)
+    persistent_read_failure(run, tmp, pair, mbm)
 
 
 def cli_faults(run, tmp, pair, bsig, model, kernel, mbm, njobs):
@@ -182,6 +183,66 @@ def cli_faults(run, tmp, pair, bsig, model, kernel, mbm, njobs):
                     if not fusion.bytes_equal(a, bsig[0]):
                         run.fail(case, 'CLI exited 0 but the corrected image differs from the API result (blocks missing?)',
                                  signature=dict(kind='cli-incomplete'))
+
+
+def persistent_read_failure(run, tmp, pair, mbm):
+    """
+    A block whose pixels cannot be read at all: every `read` of the source that touches one chosen region raises the I/O error
+    rasterio raises for an unreadable tile (`RasterioIOError`), however often it is tried.  fuse and compare must raise - a
+    normal return means the block was passed on as if it had been read.
+    """
+    import warnings
+    from rasterio.errors import RasterioIOError
+    from homonim import RasterFuse, RasterCompare
+    from homonim.enums import Model
+
+    class Unreadable:
+        def __init__(self, ds, row):
+            object.__setattr__(self, '_ds', ds)
+            object.__setattr__(self, '_row', row)
+            object.__setattr__(self, 'failed', 0)
+
+        def __getattr__(self, k):
+            v = getattr(self._ds, k)
+            if k == 'read':
+                def read(*a, **kw):
+                    w = kw.get('window')
+                    if w is not None and w.row_off <= self._row < w.row_off + w.height:
+                        object.__setattr__(self, 'failed', self.failed + 1)
+                        raise RasterioIOError('Read failed. See previous exception for details.')
+                    return v(*a, **kw)
+                return read
+            return v
+
+        def __setattr__(self, k, v):
+            setattr(self._ds, k, v)
+
+    for k, (cls, T) in enumerate(((RasterFuse, 1), (RasterFuse, 2), (RasterCompare, 1), (RasterCompare, 3))):
+        case = dict(i=4 * 10**6 + k, op='persistent read failure', cls=cls.__name__, threads=T)
+        with warnings.catch_warnings():
+            warnings.simplefilter('ignore')
+            obj = cls(pair.src_path, pair.ref_path)
+            with obj:
+                real = obj._src_im
+                prox = Unreadable(real, real.height // 2)
+                obj._src_im = prox
+                if cls is RasterFuse:
+                    call = lambda: obj.process(tmp / 'c09_unreadable.tif', Model.gain, (1, 1), overwrite=True,
+                                               block_config=dict(threads=T, max_block_mem=mbm))
+                else:
+                    call = lambda: obj.process(threads=T, max_block_mem=mbm)
+                fin, r = sc.run_with_watchdog(call, timeout=60)
+                obj._src_im = real
+        run.evaluations += 1
+        run.hist['persistent read failures'] += 1
+        run.nontrivial.add(('unreadable', k))
+        if not fin:
+            run.fail(case, 'the call hung on an unreadable block', signature=dict(kind='hang'))
+            run.hung = True
+            return
+        if prox.failed and not isinstance(r, BaseException):
+            run.fail(case, f'{cls.__name__}.process returned normally although every read of one block failed ({prox.failed} failed reads)',
+                     signature=dict(kind='swallowed'))
 
 
 def compare_stats_faults(run, tmp, pair, mbm):
